@@ -12,4 +12,9 @@ void h_lower_bound(int e0, int e1, void* out_) { vx_res* out = (vx_res*)out_;
     range<vx_iter> r = s.getBoundaries_##N(t, hints);                               \
     out->kind = r.b.kind; out->a = r.b.a; out->b = r.b.b; out->ekind = r.e.kind; }
 GB(0) GB(1) GB(2)
+#define RG(N, IT) void h_range_##N(int e0, int e1, void* out_) { vx_res* out = (vx_res*)out_;                  \
+    t_eqrel_scaffold s; vx_tuple2 lo; lo.d[0] = e0; lo.d[1] = e1; vx_tuple2 hi = lo; vx_t_eqrel_base::context h; h.hints = 0;  \
+    range<vx_t_eqrel_base::IT> r = s.lowerUpperRange_##N(lo, hi, h);                                           \
+    out->kind = r.b.n.kind; out->a = r.b.n.a; out->b = r.b.n.b; out->ekind = r.e.n.kind + 16 * r.b.swapped; }
+RG(10, iterator) RG(01, iterator_1) RG(11, iterator)
 }
